@@ -52,6 +52,28 @@ R5 = "C09-D5 pauli-expansion"
 ADJOINT_IDIOMS = {"{x}.getH()", "{x}.T.conj()", "{x}.T.conjugate()", "{x}.conj().T", "{x}.conjugate().T", "{x}.H", "{x}.conj().transpose()", "{x}.transpose().conj()", "{x}.transpose().conjugate()", "{x}.conjugate().transpose()", "numpy.conjugate({x}.T)", "np.conjugate({x}.T)", "numpy.conj({x}.T)", "np.conj({x}.T)", "{x}.adjoint()"}
 
 
+def _width_guarded(cfg, guards, n: str, op: str, target) -> bool:
+    """Every path from the entry to `target` passes a rejecting width guard or the statement `n = op.n_qubits` (after which n cannot be
+    narrower than the operator), and n is not re-bound otherwise. Plain dominance of the guard is the special case without a default."""
+    safe = {g.id for g in guards}
+    for x in cfg.nodes:
+        if isinstance(x.ast, ast.Assign) and len(x.ast.targets) == 1 and norm(x.ast.targets[0]) == n and norm(x.ast.value) == f"{op}.n_qubits":
+            safe.add(x.id)
+    rebinds = [x for x in cfg.nodes if isinstance(x.ast, (ast.Assign, ast.AugAssign)) and x.id not in safe and any(norm(t) == n for t in (x.ast.targets if isinstance(x.ast, ast.Assign) else [x.ast.target]))]
+    if not guards or rebinds or target is None:
+        return False
+    seen, stack = set(), [cfg.entry]
+    while stack:
+        y = stack.pop()
+        if y.id in seen or y.id in safe:
+            continue
+        seen.add(y.id)
+        if y is target:
+            return False
+        stack.extend(z for z, _ in y.succ)
+    return True
+
+
 def check_reverse(ctx):
     repo = ctx.repo
     fi = repo.func(f"{OU}:reverse_qubit_order")
@@ -212,7 +234,7 @@ def check_sparse(ctx):
     type_guards = [g for g in cfg.nodes if g.kind == "test" and isinstance(g.ast, ast.If) and branch_raises(cfg, g, "true") and "isinstance" in norm(g.ast.test) and "PauliSum" in norm(g.ast.test) and "PauliTerm" in norm(g.ast.test)]
     width_guards = [g for g in cfg.nodes if g.kind == "test" and isinstance(g.ast, ast.If) and branch_raises(cfg, g, "true") and norm(g.ast.test) in (f"{n} < {op}.n_qubits", f"{op}.n_qubits > {n}")]
     ctx.check(bool(type_guards) and cfg.dominates(type_guards[0], tl_node), R3, fi.key + ":type-guard", "non-Pauli operands are rejected first", "the type check no longer precedes the conversion", fi)
-    ctx.check(bool(width_guards) and cfg.dominates(width_guards[0], tl_node), R3, fi.key + ":width-guard", "n_qubits below the operator's width is rejected before building", "a register narrower than the operator is not rejected before the Kronecker chains are built", fi)
+    ctx.check(bool(width_guards) and (cfg.dominates(width_guards[0], tl_node) or _width_guarded(cfg, width_guards, n, op, tl_node)), R3, fi.key + ":width-guard", "n_qubits below the operator's width is rejected before building", "a register narrower than the operator is not rejected before the Kronecker chains are built", fi)
     dflt = [s for s in fi.node.body if isinstance(s, ast.If) and norm(s.test) == f"{n} is None" and any(isinstance(x, ast.Assign) and norm(x.targets[0]) == n and norm(x.value) == f"{op}.n_qubits" for x in s.body)]
     ctx.check(bool(dflt), R3, fi.key + ":default-width", "n_qubits defaults to the operator's width", "the register width does not default to the operator's width", fi)
     hil = [x for x in d.defs.get("n_hilbert", []) if isinstance(x, ast.AST)]
